@@ -230,9 +230,10 @@ def validate(lines, props, shards=None, timeout=1700):
         V_.drift += [(lo + b[0], b[1]) for b in v["drift"]]
         V_.infra += [(lo + b[0], b[1]) for b in v["infra"]]
         for kx, c in v["cover"].items():
-            V_.cover[kx] = V_.cover.get(kx, 0) + c
+            V_.cover.setdefault(kx, set()).update(c)
         V_.events += v["cnt"]["events"]
         V_.tlc_states += v["_states"]
+    V_.cover = {k: len(s) for k, s in V_.cover.items()}
     V_.bad.sort()
     V_.wall = time.time() - t0
     return V_
